@@ -10,6 +10,8 @@
 //	        must stay until the counter reaches zero.
 //	launch  Launch / DoTimes / Operation.Add / Operation.StartGroup with gated goroutines: Wait returns only after
 //	        all of them have ended.
+//	dotimes the counted helpers with ANY count (-3..3), on an idle group and beside running workers: a non-positive
+//	        count is a no-op, the group counts exactly the goroutines that were started.
 //
 // Verdicts about blocking are only ever taken with long (10 s) bounds; short grace periods are used only to give
 // a wrong early return the chance to show itself (a late goroutine can hide a defect, never invent one).
@@ -45,7 +47,7 @@ type Round struct {
 
 type Case struct {
 	ID     int     `json:"id"`
-	Kind   string  `json:"kind"` // seq | rounds | cancel | launch
+	Kind   string  `json:"kind"` // seq | rounds | cancel | launch | dotimes | stress
 	Ops    []SOp   `json:"ops,omitempty"`
 	Rounds []Round `json:"rounds,omitempty"`
 	K      int     `json:"k,omitempty"`
@@ -611,6 +613,129 @@ func runLaunch(run *kit.Run, c Case, verbose bool) launchObs {
 	return ob
 }
 
+// ---------------------------------------------------------------- DoTimes / StartGroup with any count
+
+type doTimesObs struct {
+	Panicked   bool `json:"panicked"`
+	After      int  `json:"after"`
+	WaitEarly  bool `json:"wait_early"`
+	EndedAtRet int  `json:"ended_at_return"`
+	Final      int  `json:"final"`
+}
+
+// runDoTimes: K workers launched through the group are running (blocked on a gate the driver controls); then one of
+// the counted-launch helpers is called with count N in -3..3.  The group must now count exactly K+max(0,N) running
+// goroutines (a non-positive N is a no-op: no panic, counter unchanged), a Wait with a live context must stay
+// blocked while any of them runs, and return once the gate is opened.
+func runDoTimes(run *kit.Run, c Case, verbose bool) doTimesObs {
+	wg := &fun.WaitGroup{}
+	var ob doTimesObs
+	fail := func(sig, detail string) { run.OracleFail(c.ID, sig, detail, c, ob) }
+	gate := make(chan struct{})
+	var ended atomic.Int64
+	var op fun.Operation = func(context.Context) { <-gate; ended.Add(1) }
+	ctx := context.Background()
+	for i := 0; i < c.K; i++ {
+		wg.Launch(ctx, op)
+	}
+	before := wg.Num()
+	ob.Panicked = safeDo(func() {
+		switch c.Via {
+		case "dotimes":
+			wg.DoTimes(ctx, c.N, op)
+		case "startgroup":
+			op.StartGroup(ctx, wg, c.N)
+		case "launch":
+			for i := 0; i < c.N; i++ {
+				wg.Launch(ctx, op)
+			}
+		case "opadd":
+			for i := 0; i < c.N; i++ {
+				op.Add(ctx, wg)
+			}
+		default:
+			panic("unknown via " + c.Via)
+		}
+	})
+	started := 0
+	if c.N > 0 {
+		started = c.N
+	}
+	want := c.K + started
+	ob.After = wg.Num()
+	if ob.Panicked {
+		sig := "C14:DoTimes:miscounted"
+		if c.N <= 0 {
+			sig = "C14:DoTimes:negative-panic"
+		}
+		fail(sig, fmt.Sprintf("%s with count %d on a group with %d running workers panicked (counter %d -> %d); a non-positive count must be a no-op", c.Via, c.N, c.K, before, ob.After))
+	}
+	if ob.After != want {
+		fail("C14:DoTimes:miscounted", fmt.Sprintf("%s with count %d on a group with %d running workers: %d goroutines are running and none has finished, but Num()=%d", c.Via, c.N, c.K, want, ob.After))
+	}
+	type wres struct {
+		live  bool
+		ended int64
+	}
+	res := make(chan wres, 1)
+	wctx, wcancel := context.WithTimeout(ctx, longBound)
+	defer wcancel()
+	go func() { wg.Wait(wctx); res <- wres{wctx.Err() == nil, ended.Load()} }()
+	first := grace
+	if want == 0 {
+		first = longBound // nothing is running: Wait must return by itself
+	}
+	var got *wres
+	select {
+	case w := <-res:
+		got = &w
+		ob.WaitEarly = w.live
+		if w.live && want > 0 {
+			fail("C14:DoTimes:miscounted", fmt.Sprintf("%s with count %d: Wait returned with a live context while %d goroutines started through the group were still running", c.Via, c.N, want))
+		}
+	case <-time.After(first):
+		if want == 0 {
+			fail("C14:Wait:missed-wakeup", fmt.Sprintf("%s with count %d on an idle group: Wait did not return within %v (counter %d)", c.Via, c.N, longBound, ob.After))
+		}
+	}
+	// driver hygiene after a recorded miscount: put the counter back to the number of running goroutines, so that
+	// their deferred Done calls cannot panic inside their own goroutines (which would kill this process)
+	if cur := wg.Num(); cur != want {
+		safeAdd(wg, want-cur)
+	}
+	close(gate)
+	if got == nil {
+		select {
+		case w := <-res:
+			got = &w
+		case <-time.After(longBound + 3*time.Second):
+			fail("C14:Wait:missed-wakeup", fmt.Sprintf("%s: Wait did not return although all %d goroutines were released", c.Via, want))
+		}
+		if got != nil {
+			if !got.live {
+				fail("C14:Wait:missed-wakeup", fmt.Sprintf("%s: Wait came back only through its deadline", c.Via))
+			} else if int(got.ended) != want {
+				fail("C14:Launch:not-covered", fmt.Sprintf("%s: Wait returned with a live context when only %d of %d goroutines had ended", c.Via, got.ended, want))
+			}
+		}
+	}
+	if got != nil {
+		ob.EndedAtRet = int(got.ended)
+	}
+	t0 := time.Now()
+	for (wg.Num() != 0 || int(ended.Load()) != want) && time.Since(t0) < longBound {
+		time.Sleep(50 * time.Microsecond)
+	}
+	ob.Final = wg.Num()
+	if ob.Final != 0 {
+		fail("C14:Num:sum", fmt.Sprintf("%s: counter is %d after all %d goroutines ended", c.Via, ob.Final, want))
+	}
+	if verbose {
+		fmt.Printf("  dotimes via=%s k=%d n=%d -> %+v\n", c.Via, c.K, c.N, ob)
+	}
+	return ob
+}
+
 // ---------------------------------------------------------------- cancellation race stress (thorough tier)
 
 // runStress hunts the cancellation race: many waiters whose contexts are cancelled right around the moment they
@@ -730,7 +855,8 @@ func main() {
 	run.CaseType = "case"
 	run.Rule = "seq: random sequences (0..30 ops) of Add(-3..3)/Inc/Done/Num/IsDone/Wait(try-form)/Wait(cancelled ctx) on the real WaitGroup; " +
 		"rounds: a group reused over 1..3 rounds, 1..4 waiters x 1..4 workers whose Add/Done sequences return to zero, 5 start delays; " +
-		"cancel: 1..3 cancelled + 0..3 live waiters at a positive counter; launch: 0..6 gated goroutines through Launch/DoTimes/Operation.Add/StartGroup. " +
+		"cancel: 1..3 cancelled + 0..3 live waiters at a positive counter; launch: 0..6 gated goroutines through Launch/DoTimes/Operation.Add/StartGroup; " +
+		"dotimes: DoTimes/StartGroup/Launch-loop/Operation.Add-loop with count -3..3 on a group with 0..3 gated running workers. " +
 		"distinct = distinct case specification; non-trivial = seq with at least one Add-like op and one Wait/Num, every concurrent case"
 	if run.Thorough() {
 		grace = 10 * time.Millisecond
@@ -763,6 +889,14 @@ func main() {
 		{Kind: "launch", N: 2, Via: "opadd"},
 		{Kind: "launch", N: 3, Via: "startgroup"},
 		{Kind: "launch", N: 0, Via: "dotimes"},
+		// counted-launch helpers with non-positive counts: a no-op on an idle group and beside running workers
+		{Kind: "dotimes", K: 0, N: -1, Via: "dotimes"},
+		{Kind: "dotimes", K: 2, N: -1, Via: "dotimes"},
+		{Kind: "dotimes", K: 1, N: -1, Via: "startgroup"},
+		{Kind: "dotimes", K: 3, N: -3, Via: "dotimes"},
+		{Kind: "dotimes", K: 1, N: 0, Via: "startgroup"},
+		{Kind: "dotimes", K: 2, N: 2, Via: "dotimes"},
+		{Kind: "dotimes", K: 0, N: -2, Via: "opadd"},
 	}
 	// a defect that makes Wait hang costs 10 s per failing case: a handful of failures is enough evidence
 	enough := func() bool { return run.NOracle+len(ctxIgnoredSeen) >= 5 }
@@ -804,6 +938,13 @@ func main() {
 	for i := 0; i < nlaunch && !enough(); i++ {
 		r := run.Rand.Fork()
 		execCase(run, Case{ID: id, Kind: "launch", N: r.Range(0, 6), Via: vias[r.Intn(len(vias))]}, false)
+		id++
+	}
+	ndotimes := run.Pick(500, 6000)
+	dvias := []string{"dotimes", "startgroup", "dotimes", "startgroup", "launch", "opadd"}
+	for i := 0; i < ndotimes && !enough(); i++ {
+		r := run.Rand.Fork()
+		execCase(run, Case{ID: id, Kind: "dotimes", K: r.Range(0, 3), N: r.Range(-3, 3), Via: dvias[r.Intn(len(dvias))]}, false)
 		id++
 	}
 	if run.Thorough() && !enough() {
@@ -860,6 +1001,18 @@ func execCase(run *kit.Run, c Case, verbose bool) {
 		run.Count("launch/via=" + c.Via)
 		term := fmt.Sprintf("CLaunch %s %s %s %s %s", kit.ZI(c.ID), kit.ZI(c.N), kit.ZI(ob.AfterLaunch), kit.Bool(ob.WaitEarly), kit.ZI(ob.Final))
 		run.Case(c.ID, c, term, fmt.Sprintf("l|%s|%d", c.Via, c.N), true)
+	case "dotimes":
+		ob := runDoTimes(run, c, verbose)
+		sign := "neg"
+		if c.N == 0 {
+			sign = "zero"
+		} else if c.N > 0 {
+			sign = "pos"
+		}
+		run.Count(fmt.Sprintf("dotimes/via=%s,n=%s", c.Via, sign))
+		run.Count(fmt.Sprintf("dotimes/running=%d", c.K))
+		term := fmt.Sprintf("CDoTimes %s %s %s %s %s %s %s", kit.ZI(c.ID), kit.ZI(c.K), kit.ZI(c.N), kit.Bool(ob.Panicked), kit.ZI(ob.After), kit.Bool(ob.WaitEarly), kit.ZI(ob.Final))
+		run.Case(c.ID, c, term, fmt.Sprintf("d|%s|%d|%d", c.Via, c.K, c.N), true)
 	case "stress":
 		trials, stuck := runStress(run, c, verbose)
 		run.Extra["stress_trials"] = trials
